@@ -498,7 +498,7 @@ Lemma zrestrict_S : forall n s c f vars level,
                 end
             else if negb (Nat.eqb flevel level) then zrestrict C cget cadd n s c f vhi (S level)
             else
-              match cget c zcode_restrict [f; vars] [] with
+              match cget c zcode_restrict [f; vars] [nlevels s] with
               | Some r => Some (s, c, r)
               | None =>
                 match zrestrict C cget cadd n s c (eref fhi) vhi (S level) with
@@ -508,7 +508,7 @@ Lemma zrestrict_S : forall n s c f vars level,
                   | None => None
                   | Some (s2, c2, lo) =>
                     let '(s3, r) := zmk_node s2 level hi lo in
-                    Some (s3, cadd c2 zcode_restrict [f; vars] [] r, r)
+                    Some (s3, cadd c2 zcode_restrict [f; vars] [nlevels s] r, r)
                   end
                 end
               end
@@ -591,10 +591,10 @@ Proof.
         destruct Hparts as [(Heq & H1 & H0)|(Hlt & H1 & H0)].
         -- (* f has a node at lvl: recurse on both children *)
            rewrite (proj2 (Nat.eqb_eq _ _) Heq). simpl negb. cbv iota.
-           destruct (cget c zcode_restrict [RN idf; vars] []) as [r0|] eqn:Ecache.
+           fold N. destruct (cget c zcode_restrict [RN idf; vars] [N]) as [r0|] eqn:Ecache.
            { (* cache hit *)
-             destruct (O _ _ _ _ Ecache) as [_ Ox]. simpl in Ox. destruct Ox as [_ Ox].
-             destruct (Ox eq_refl) as (P0 & id0 & nd0 & M0 & D0 & Eid & En0 & Hc0 & Dr).
+             destruct (O _ _ _ _ Ecache) as [_ Ox]. simpl in Ox.
+             destruct (Ox eq_refl eq_refl) as (P0 & id0 & nd0 & M0 & D0 & Eid & En0 & Hc0 & Dr).
              inversion Eid; subst id0. rewrite Enf in En0. inversion En0; subst nd0.
              apply (zresultB_here C cget); auto. apply (zden_ext s r0 _ _ Dr). fold N. rewrite Heq.
              apply (peq_trans _ (prestr N M lvl P0)).
@@ -619,11 +619,11 @@ Proof.
            assert (Dr : ZDen s3 r (prestr N M lvl P)).
            { apply (zden_ext s3 r _ _ D3). apply peq_sym. apply (peq_trans _ _ _ Hnode).
              apply node_pred_ext; apply prestr_ext; assumption. }
-           exists s3, (cadd c2 zcode_restrict [RN idf; vars] [] r), r.
+           exists s3, (cadd c2 zcode_restrict [RN idf; vars] [N] r), r.
            split; [reflexivity|]. split; [exact B3|]. split; [exact X|]. split; [|exact Dr].
            apply (zcacheokb_add C cget cadd Hlossy); [exact O3| |].
            ++ apply zentry_ok_other; intros o; destruct o; discriminate.
-           ++ split; [discriminate|]. intros _.
+           ++ intros _ _.
               exists P, idf, fnd, M. split; [apply (zden_extends s s3 _ _ B X DF)|]. split; [reflexivity|].
               split; [apply (ext_nodes _ _ X); exact Enf|]. rewrite Heq.
               split; [apply (zcube_extends s s3 M _ _ X Hc)|].
